@@ -329,6 +329,7 @@ func checkC17(p *Prog, r *Report) {
 
 	checkSwitchOnce(p, r)
 	checkFrameAtomic(p, r)
+	checkSingleFramer(p, r)
 	r.Trust("bufio.Reader.Read calls the underlying reader with its whole buffer or with a caller slice at least that large (standard library behaviour)")
 	r.Uncovered("equality of results across re-framings as an end-to-end fact")
 }
